@@ -116,6 +116,7 @@ pub fn instr_name(i: &Instruction) -> String {
 
 /// Lints, generates and runs `program` in `world`.
 pub fn run_program(program: &Program, world: &Shared, budget: u64) -> RunResult {
+    let strict_end = !world.borrow().spans.is_empty();
     let mut monitor_report = MonitorReport::default();
     // ---- lint ----
     let p = program.clone();
@@ -185,7 +186,7 @@ pub fn run_program(program: &Program, world: &Shared, budget: u64) -> RunResult 
     };
     let mut interpreter = Interpreter::new(env, stdin, stdout, lpt1, screen, user_defined_types);
 
-    let monitor = Rc::new(RefCell::new(Monitor::new(&gen_result)));
+    let monitor = Rc::new(RefCell::new(Monitor::new(&gen_result, strict_end)));
     let stopped = Rc::new(RefCell::new(false));
     {
         let world = world.clone();
